@@ -5,5 +5,7 @@ FamQ == {"EOF", "EOFRotator2", "MCA", "CPCCA", "CPCCARotator2", "EOFstd"}
 SchedAll == {"sync", "threads1", "threads2", "threads4", "threads16"}
 SchedQ == {"sync", "threads4"}
 BB == {TRUE, FALSE}
+WAll == {"none", "numpy", "dask"}
+WQ == {"none", "dask"}
 Emit == phase = "done" => PrintT(<<"@@", ToJson([cfg |-> cfg, pred |-> pred])>>)
 =============================================================================
